@@ -486,7 +486,7 @@ fn check_contract(det: Det, reader: bool, inp: &[u8], ev: &[String]) -> Option<S
 
 /// Second sentence of the property on one printed search (`out` = bytes written for this file).
 /// Returns (detail, class) of a violation. The class is decided by the guard of the Lean partial theorem.
-fn second_sentence(det: Det, events: &[String], out: &[u8], sx: &str, drv: &mut Driver) -> Option<(String, &'static str)> {
+fn second_sentence(det: Det, events: &[String], out: &[u8], _sx: &str, _drv: &mut Driver) -> Option<(String, &'static str)> {
     if !events.iter().any(|e| e.starts_with("bin ")) {
         return None;
     }
@@ -495,33 +495,23 @@ fn second_sentence(det: Det, events: &[String], out: &[u8], sx: &str, drv: &mut 
     match det {
         Det::None => None,
         Det::Quit => {
-            // dropped, or cut off with a warning if lines were already printed
-            if !out.is_empty() && !last.contains("WARNING: stopped searching binary file after match") {
-                // F19 `lines-printed-without-match-no-warning`.  Mechanism: in Quit mode the printer
-                // writes the cut-off warning only if `match_count > 0`; when only context / passthru
-                // lines were printed before the NUL the file is cut off silently.
-                // Test: (1) Quit mode; (2) `binary_data` was reported; (3) NO `matched` callback before it
-                // (match_count = 0); (4) at least one context / passthru callback before it; (5) everything
-                // that was written is context lines (`path-<n>-…`) or context separators, no match line,
-                // no notice; (6) the guard of the Lean partial theorem `C14_partial_quit` fails.
-                let b = events.iter().position(|e| e.starts_with("bin ")).unwrap_or(events.len());
-                let no_match_before = !events[..b].iter().any(|e| e.starts_with("m "));
-                let ctx_before = events[..b].iter().any(|e| e.starts_with("cB ") || e.starts_with("cA ") || e.starts_with("cO "));
-                let only_ctx_written = text.lines().all(|l| {
-                    l == "--"
-                        || l.strip_prefix("d/f-").map_or(false, |r| {
-                            r.split('-').next().map_or(false, |n| !n.is_empty() && n.bytes().all(|c| c.is_ascii_digit()))
-                        })
-                });
-                let guard = drv.ask(&format!("c14.guard quit {}", sx));
-                let class = if guard == "0" && b < events.len() && no_match_before && ctx_before && only_ctx_written {
-                    "lines-printed-without-match-no-warning"
-                } else {
-                    ""
-                };
+            // dropped, or cut off with a warning if anything was already printed (in full since fix ea82056:
+            // theorem implicit_cut_with_warning); the warning says "after match" iff a line matched
+            let b = events.iter().position(|e| e.starts_with("bin ")).unwrap_or(events.len());
+            let matched_before = events[..b].iter().any(|e| e.starts_with("m "));
+            let want = if matched_before {
+                "WARNING: stopped searching binary file after match (found"
+            } else {
+                "WARNING: stopped searching binary file (found"
+            };
+            if !out.is_empty() && !last.contains(want) {
                 return Some((
-                    format!("lines were printed but the output does not end with the warning: {:?}", show(&out[..out.len().min(300)])),
-                    class,
+                    format!(
+                        "something was printed but the output does not end with the warning {:?}: {:?}",
+                        want,
+                        show(&out[..out.len().min(300)])
+                    ),
+                    "",
                 ));
             }
             None
@@ -745,7 +735,7 @@ fn run_bs(case: &str, c: &Bs, args: &Args, drv: &mut Driver, rep: &mut Report) {
             });
         }
         if let Some((d, class)) = second_sentence(c.det, &run.events, &run.printed, &sx, drv) {
-            rep.branch(if class.is_empty() { "class:unclassified" } else { "class:lines-printed-without-match-no-warning:attributed" });
+            rep.branch("class:unclassified");
             rep.violation(Violation {
                 kind: "impl_vs_spec".into(),
                 class: class.into(),
@@ -1005,7 +995,7 @@ fn run_cli(case: &str, c: &Cli, args: &Args, drv: &mut Driver, rep: &mut Report)
         }
     } else if detected {
         if let Some((d, class)) = second_sentence(det, &run.events, &stdout, &sx, drv) {
-            rep.branch(if class.is_empty() { "class:unclassified" } else { "class:lines-printed-without-match-no-warning:attributed" });
+            rep.branch("class:unclassified");
             rep.violation(Violation {
                 kind: "impl_vs_spec".into(),
                 class: class.into(),
@@ -1493,7 +1483,7 @@ fn run_clir(case: &str, c: &Clir, args: &Args, drv: &mut Driver, rep: &mut Repor
         if run.events.iter().any(|e| e.starts_with("bin ")) && c.mode != "text" {
             rep.branch("clir:binary-detected");
             if let Some((d, class)) = second_sentence(det, &run.events, &stdout, &sx, drv) {
-                rep.branch(if class.is_empty() { "class:unclassified" } else { "class:lines-printed-without-match-no-warning:attributed" });
+                rep.branch("class:unclassified");
                 rep.violation(Violation {
                     kind: "impl_vs_spec".into(),
                     class: class.into(),
